@@ -35,7 +35,9 @@ func NewPresence(start xml.StartElement) (Presence, error) {
 			v.Lang = attr.Value
 			continue
 		}
-		if attr.Name.Space != "" && attr.Name.Space != start.Name.Space {
+		if attr.Name.Space != "" {
+			// Qualified attributes are not the stanza's id, type, to or from, not
+			// even when qualified by the stanza's own namespace.
 			continue
 		}
 
